@@ -19,23 +19,31 @@ Definition d7_ends : list Z := map (fun i => 100 * Z.of_nat i) (seq 1 164).
 Definition d7_reads : list Z :=
   repeat 512 5 ++ repeat 2035 15 ++ repeat 3535 15 ++ repeat 5035 15 ++ repeat 6535 15 ++ repeat 8035 15
   ++ repeat 9535 15 ++ repeat 11035 15 ++ repeat 12535 15 ++ repeat 14035 15 ++ repeat 15535 15 ++ repeat 16418 9.
+Definition d7_steps : list (Z * Z) := combine d7_reads d7_ends.     (* (bytes read, bytes consumed) *)
 Definition d7_rerr : Z := 16418.
 Definition d7_E : Z := 16410.     (* the space after "tru": byte index 16409 *)
 
-Lemma d7_chunking : chunking_ok d7_input d7_ends d7_reads d7_rerr d7_E.
+Lemma d7_chunking : chunking_ok d7_input d7_steps d7_rerr d7_E.
 Proof. vm_compute. reflexivity. Qed.
 
-Lemma d7_wrong : forall swidth,
+(* regression (D7): the arithmetic BEFORE the repair reports line 168 and an empty excerpt *)
+Lemma d7_old_wrong : forall swidth,
   ~ pos_ok swidth d7_input (Z.to_nat (d7_E - 1))
-      (report_of swidth (pipe_report d7_input (d7_reads ++ [d7_rerr]) (Some d7_E))).
+      (report_of swidth (old_pipe_report d7_input d7_steps d7_rerr (Some d7_E))).
 Proof.
   intros sw H.
-  assert (R : report_of sw (pipe_report d7_input (d7_reads ++ [d7_rerr]) (Some d7_E)) = ([], 168, sw [])).
+  assert (R : report_of sw (old_pipe_report d7_input d7_steps d7_rerr (Some d7_E)) = ([], 168, sw [])).
   { vm_compute. reflexivity. }
   rewrite R in H. clear R. destruct H as [H _]. vm_compute in H. discriminate H.
 Qed.
 
-(* 200 documents of 100 bytes terminated by a lone CR, then the faulty document: seekable input *)
+(* the current arithmetic on the same input and the same reads: line 165, the faulty line quoted *)
+Lemma d7_now_right : forall swidth,
+  report_of swidth (pipe_report d7_input d7_steps d7_rerr (Some d7_E)) =
+  (codes "{""b"": tru }", 165, swidth (codes "{""b"": tru")).
+Proof. intros sw. vm_compute. reflexivity. Qed.
+
+(* 200 documents of 100 bytes terminated by a lone CR, then the faulty document *)
 Definition cr_input : list N := rep_app 200 (doc100 13) (bad_doc 13).
 Definition cr_E : Z := 20010.
 
@@ -45,5 +53,18 @@ Proof.
   intros sw H.
   assert (L : snd (fst (report_of sw (seek_report cr_input (Some cr_E)))) = 42) by (vm_compute; reflexivity).
   destruct (report_of sw (seek_report cr_input (Some cr_E))) as [[ex line] col].
+  cbn [fst snd] in L. subst line. destruct H as [H _]. vm_compute in H. discriminate H.
+Qed.
+
+(* the same input on the non-seekable path, every value delivered with everything already read *)
+Definition cr_steps : list (Z * Z) := map (fun i => (20012, 100 * Z.of_nat i)) (seq 1 200).
+Lemma cr_chunking : chunking_ok cr_input cr_steps 20012 cr_E.
+Proof. vm_compute. reflexivity. Qed.
+Lemma cr_pipe_wrong : forall swidth,
+  ~ pos_ok swidth cr_input (Z.to_nat (cr_E - 1)) (report_of swidth (pipe_report cr_input cr_steps 20012 (Some cr_E))).
+Proof.
+  intros sw H.
+  assert (L : snd (fst (report_of sw (pipe_report cr_input cr_steps 20012 (Some cr_E)))) = 164) by (vm_compute; reflexivity).
+  destruct (report_of sw (pipe_report cr_input cr_steps 20012 (Some cr_E))) as [[ex line] col].
   cbn [fst snd] in L. subst line. destruct H as [H _]. vm_compute in H. discriminate H.
 Qed.
